@@ -277,6 +277,8 @@ def run(tier, seed, result):
             notes.append(f'{params}: {st}')
     from . import c03_sched
     notes.append(c03_sched.run(tier, seed, result))
+    from . import c03_threads
+    notes.append(c03_threads.run(tier, seed, result))
     result.assumptions += [
         'engine.io, bidict trusted; transports are real engineio sockets '
         'with the network cut',
